@@ -19,7 +19,7 @@ def main():
     subprocess.run('git checkout -q -- . && git clean -fdq && git checkout -q --detach %s' % head, shell=True, cwd=WT, check=True)
     res = json.load(open(OUT)) if os.path.exists(OUT) else {}
     unconfirmed = set()
-    for inc, sfx in (('_incoming', ''), ('_incoming2', '#2'), ('_incoming3', '#3')):
+    for inc, sfx in (('_incoming', ''), ('_incoming2', '#2'), ('_incoming3', '#3'), ('_incoming4', '#4')):
         vf = os.path.join(HERE, 'seeded', inc, 'validation.json')
         if os.path.exists(vf):
             unconfirmed |= {k + sfx for k, v in json.load(open(vf)).items() if not v.get('confirmed')}
@@ -28,7 +28,7 @@ def main():
     for n_seed, p in enumerate(seeds):
         if n_seed % SH_N != SH_I:
             continue
-        key = ('/'.join(p.split('/')[-3:-1]) + ('#2' if '_incoming2' in p else '#3' if '_incoming3' in p else '')) if p.endswith('patch.diff') else os.path.basename(p)[:-5]
+        key = ('/'.join(p.split('/')[-3:-1]) + (lambda m: '#' + m.group(1) if m else '')(re.search(r'_incoming(\d+)/', p))) if p.endswith('patch.diff') else os.path.basename(p)[:-5]
         if only and not any(o in key for o in only):
             continue
         if key in res and not only:
